@@ -669,10 +669,17 @@ func runC15(p *Program, r *Report) {
 	c03ctl(p, r, "C15.len")
 	// activePings accessed only under its mutex (shared with C05.guard)
 	c05guard(p, r, getLockEnv(p), "C15.guard", map[string]bool{"Conn.activePings": true})
-	// ping/pong pass the close-sent guard: reuse the C16 table rows for opcodes 9 and 10
+	cAfterClose(p, r, "C15.after-close")
+	c03loop(p, r, "C15.recv.loop")
+	c06wait(p, r, "C15.wait")
+}
+
+// cAfterClose: ping and pong frames pass the close-sent guard (the C16 table rows for opcodes 9 and 10): a ping that
+// arrives after our Close frame and before the peer's is answered, and the close handshake goes on to read the peer's Close.
+func cAfterClose(p *Program, r *Report, rule string) {
 	if fn := p.Func("Conn.writeFrame"); fn != nil && p.FieldOpt("Conn.closeSent") != nil {
 		p.runTable(r, tableSpec{
-			Rule: "C15.after-close", Fn: fn,
+			Rule: rule, Fn: fn,
 			Atoms:  []Atom{boolAtom("Conn.closeSent"), intAtom("param:opcode", []int64{9, 10}), boolAtom("Conn.client")},
 			Decide: func(v Valuation) func(string, AV) (bool, bool) { return writeFrameOKDecide },
 			Classify: func(v Valuation, pa *Path) string {
